@@ -70,7 +70,22 @@ fn interleaved(tb: &Tbl) -> bool {
 
 fn prop_value(t: &mut Tape, st: &mut Stats) -> Result<(), Failure> {
     let mut budget = 6 + t.below(40) as isize;
-    let tree = gen_tbl(t, 0, &mut budget);
+    let mut tree = gen_tbl(t, 0, &mut budget);
+    if t.chance(1, 12) {
+        // wide: dozens of tables and arrays of tables
+        st.class("wide-value");
+        let n = 22 + t.small(30);
+        for i in 0..n {
+            let mut b = 4isize;
+            let sub = gen_tbl(t, 3, &mut b);
+            let k = format!("w{:02}", (i * 7) % n);
+            if tree.get(&k).is_some() {
+                continue;
+            }
+            let v = if t.chance(1, 3) { Node::Array((0..1 + t.small(3)).map(|_| Node::Table(sub.clone())).collect()) } else { Node::Table(sub) };
+            tree.entries.push((k, v));
+        }
+    }
     st.eval();
     if interleaved(&tree) {
         st.nontrivial(model::digest(&Node::Table(tree.clone())));
